@@ -15,7 +15,8 @@
       x/exchange/commitments.go  SimplifyAccountAmounts, SumAccountAmounts
       x/exchange/msgs.go  ValidateBasic of MsgCommitFunds, MsgMarketReleaseCommitments,
                       MsgMarketCommitmentSettle ([wf] checks of the operations)
-      grpc_query.go   GetCommitment, GetAccountCommitments, GetMarketCommitments, GetAllCommitments
+      grpc_query.go   GetCommitment, GetAccountCommitments, GetMarketCommitments, GetAllCommitments,
+                      GetAllMarkets
     These keys live in the same KV store as the order / payment keys of Exchange/Index.v but under
     other type bytes (0x01, 0x06, 0x07, 0x63 against 0x02-0x05, 0x08, 0x09, 0x10, 0x70), so the
     two parts are modelled as two stores side by side; [xstep] at the end runs them together.
@@ -64,9 +65,9 @@ Fixpoint csorted (c : coins) : bool :=
   | (d1, _) :: (((d2, _) :: _) as r) => key_ltb d1 d2 && csorted r
   | _ => true
   end.
-(** Coins.Validate (denoms are only required to be non-empty here). *)
+(** Coins.Validate: strictly sorted by denom, positive amounts, valid denoms ([denom_ok]). *)
 Definition cvalid (c : coins) : bool :=
-  csorted c && forallb (fun x => Z.ltb 0 (snd x) && negb (Nat.eqb (length (fst x)) 0)) c.
+  csorted c && forallb (fun x => Z.ltb 0 (snd x) && denom_ok (fst x)) c.
 
 Fixpoint coins_eqb (a b : coins) : bool :=
   match a, b with
@@ -306,6 +307,19 @@ Definition page_of_all_commitments (kv : cst) (rq : page_req)
   : option (list (N * bytes * coins) * page_resp) :=
   match sdk_paginate (pstore kv p_commit_all) rq with
   | Some (acc, resp) => Some (flat_map commitment_of_entry_all acc, resp)
+  | None => None
+  end.
+
+(** GetAllMarkets: query.FilteredPaginate over the known-market-id prefix store; an entry is a hit
+    when ParseKeySuffixKnownMarketID reads an id from its key (at least 4 bytes); an accumulated
+    hit is listed through GetMarketBrief, which needs the market's account -- every known market
+    has one (CreateMarket makes it; C13_market_ids), so each accumulated hit yields one item. *)
+Definition markets_hit (k : key) (v : cval) : bool := Nat.leb 4 (length k).
+
+Definition page_of_all_markets (kv : cst) (rq : page_req) : option (list N * page_resp) :=
+  match sdk_filtered_paginate markets_hit (pstore kv p_known) rq with
+  | Some (acc, resp) =>
+      Some (flat_map (fun e => match u32_from_bz (fst e) with Some m => [m] | None => [] end) acc, resp)
   | None => None
   end.
 
